@@ -16,7 +16,7 @@ CHECKS_ONLY = False
 
 def one(path):
     P, mk = path.split('/')[-2], path.split('/')[-1]
-    tag = f"{P}_{mk}"
+    tag = f"{P}_{mk}" if '/out2/' not in path else f"{P}_r2{mk}"
     res = {"id": tag, "property": P, "src": path}
     if CHECKS_ONLY and os.path.exists(f"{OUT}/{tag}.json"):
         res = json.load(open(f"{OUT}/{tag}.json"))
@@ -40,7 +40,7 @@ def one(path):
             rc, out = sh(f"/venv/bin/python {path}/demo.py", cwd=wt, env=env, timeout=1200)
             res["demo_mutant_rc"] = rc; res["demo_mutant_tail"] = out[-400:]
             xml = f"{OUT}/{tag}.xml"
-            sh(f"/venv/bin/python -m pytest -q -p no:cacheprovider --timeout=900 --continue-on-collection-errors -n 4 --junitxml={xml}", cwd=wt, env=env, timeout=3000)
+            sh(f"/venv/bin/python -m pytest -q -p no:cacheprovider --timeout=900 --continue-on-collection-errors -n 3 --junitxml={xml}", cwd=wt, env=env, timeout=3000)
             ok = set()
             try:
                 for tc in ET.parse(xml).getroot().iter('testcase'):
@@ -68,9 +68,14 @@ if __name__ == "__main__":
     if "--checks-only" in sys.argv:
         CHECKS_ONLY = True
         sys.argv.remove("--checks-only")
-    props = sys.argv[1:] or [f"C{i:02d}" for i in range(1, 21)]
-    paths = sorted(p for P in props for p in glob.glob(f"/tmp/mut/out/{P}/m*") if os.path.isdir(p))
-    with ThreadPoolExecutor(12 if CHECKS_ONLY else 5) as ex:
+    props = [a for a in sys.argv[1:] if not a.startswith("--")] or [f"C{i:02d}" for i in range(1, 21)]
+    roots = ["/tmp/mut/out", "/tmp/mut/out2"]
+    if "--round2" in sys.argv:
+        roots = ["/tmp/mut/out2"]
+        props = [x for x in props if x != "--round2"]
+    paths = sorted(p for root in roots for P in props for p in glob.glob(f"{root}/{P}/m*")
+                   if os.path.isdir(p) and os.path.exists(os.path.join(p, "notes.md")))
+    with ThreadPoolExecutor(12 if CHECKS_ONLY else 3) as ex:
         for r in ex.map(one, paths):
             print(r["id"], "applies" if r.get("applies") else "NOAPPLY", "clean", r.get("demo_clean_rc"), "mut", r.get("demo_mutant_rc"),
                   "base", r.get("baseline_pass"), "fired", sorted((r.get("checks_fired") or {}).keys()), flush=True)
